@@ -1,0 +1,35 @@
+//go:build verif
+
+package testdirectory
+
+// Contracts for the govc verifier (see /verif/DESIGN.md). This file contains
+// comments only; it is compiled only with the "verif" build tag and changes
+// nothing in the package.
+
+// A-DIR: the directory invariant. Start establishes it; SetUsers / SetGroups /
+// SetControls callers must not pass nil entries, attributes or controls.
+//@ pure entryWF(u *gldap.Entry) bool = u != nil && forall(j, 0, len(u.Attributes), u.Attributes[j] != nil)
+//@ pure dirOK(d *Directory) bool = d != nil && !isNilIface(d.logger) && forall(i, 0, len(d.users), entryWF(d.users[i])) && forall(i, 0, len(d.groups), entryWF(d.groups[i])) && ctlsOK(d.controls)
+
+// ---- C19 ---------------------------------------------------------------------------------
+// "the bind DN is exactly the DN of a user entry whose first password value
+// equals the supplied password": the first attribute named "password" has a
+// first value equal to pw.
+//@ pure firstPw(u *gldap.Entry, pw string) bool = exists(k, 0, len(u.Attributes), u.Attributes[k].Name == "password" && forall(j, 0, k, u.Attributes[j].Name != "password") && len(u.Attributes[k].Values) > 0 && u.Attributes[k].Values[0] == pw)
+//@ pure credOK(d *Directory, dn string, pw string) bool = (pw == "" && d.allowAnonymousBind) || exists(i, 0, len(d.users), d.users[i].DN == dn && firstPw(d.users[i], pw))
+//@ pure isSimple(r *gldap.Request) bool = typeIs(r.message, *gldap.SimpleBindMessage) && r.message.(*gldap.SimpleBindMessage).AuthChoice == gldap.SimpleAuthChoice
+//@ func (*testdirectory.Directory).handleBind$1
+//@   requires w != nil && r != nil && wOK(w) && !held(w.writerMu) && reqOK(r)
+//@   requires dirOK(d) && !held(&d.mu)
+//@   ensures  G_lastok[w.writerMu] && isSimple(r) && credOK(d, r.message.(*gldap.SimpleBindMessage).UserName, string(r.message.(*gldap.SimpleBindMessage).Password)) ==> G_lastcode[w.writerMu] == gldap.ResultSuccess
+//@   ensures  G_lastok[w.writerMu] && !(isSimple(r) && credOK(d, r.message.(*gldap.SimpleBindMessage).UserName, string(r.message.(*gldap.SimpleBindMessage).Password))) ==> G_lastcode[w.writerMu] == gldap.ResultInvalidCredentials
+//@   ensures  G_lastok[w.writerMu] ==> G_lasttag[w.writerMu] == gldap.ApplicationBindResponse && G_lastid[w.writerMu] == msgID(r.message)
+//@   ensures  !held(&d.mu) && !held(w.writerMu)
+//@   panics false
+//@   modifies all(ber.Packet), cell(*ber.Packet), G_bufdata, G_pktnew, G_held, G_acq, G_nframes, G_npend, G_werr, G_pendstr, G_flushed, G_lastok, G_lasttag, G_lastcode, G_lastid
+//@   tags C19
+//@ loop 1
+//@   invariant forall(i, 0, rangeindex + 1, !(d.users[i].DN == m.UserName && firstPw(d.users[i], string(m.Password))))
+//@   invariant resp != nil && resp.baseResponse != nil && resp.code == gldap.ResultInvalidCredentials && resp.messageID == msgID(r.message) && len(resp.controls) == 0
+//@   invariant !held(&d.mu) && !held(w.writerMu)
+//@   modifies nothing
